@@ -15,7 +15,7 @@ RULE = (
     "basis: proves the linear maps) incl. matrix-free fwd/rev products; non-trivial = forces non-zero / basis vector mapped"
 )
 ASSUMPTIONS = ["finite alphabets; <=3 surfaces, nx<=3, ny<=7", "OpenMDAO/NumPy/SciPy/mphys trusted"]
-BOUND = {"quick": "<=3 surfaces; ladder d in {10,1e2,1e4,1e6} chords", "thorough": "adds sizes, flows"}
+BOUND = {"quick": "<=3 surfaces, all permutations, 3 symmetry patterns (full, half, mixed); ladder d in {10,1e2,1e4,1e6} chords", "thorough": "adds sizes, flows"}
 TOL = 1e-9
 
 SPECS_FULL = [
@@ -34,7 +34,8 @@ def states(tier, seed):
     fam = seed % 3
     st = []
     flows = [(5.0, 0.0), (-3.0, 4.0)] if tier == "quick" else [(5.0, 0.0), (-3.0, 4.0), (12.0, -10.0), (0.0, 0.0)]
-    for symset in (False, True):
+    # "mixed": full-span asymmetric surfaces and symmetric half-span surfaces in one list (full, half, full)
+    for symset in (False, True, "mixed"):
         for n in (2, 3):
             for perm in itertools.permutations(range(n)):
                 for al, be in flows:
@@ -63,7 +64,10 @@ def states(tier, seed):
 
 def mk_surfs(sym, n, fam, visc=False):
     out = []
+    mixed = sym == "mixed"
     for k in range(n):
+        if mixed:
+            sym = k % 2 == 1
         sp = (SPECS_SYM if sym else SPECS_FULL)[k]
         m = gen.make_mesh(sp["pf"], sp["nx"], sp["ny"], "left" if sym else "full", fam, asym=not sym, span=sp["span"], chord=sp["chord"], offset=sp["off"])
         out.append(builders.aero_surface("s%d" % k, m, sym, with_viscous=visc, CD0=0.01 * (k + 1), CL0=0.02 * k))
@@ -84,7 +88,7 @@ def mac_of(p, name, sym):
 
 def part_perm(s):
     surfs = mk_surfs(s["sym"], s["n"], s["fam"], s["visc"])
-    fl = dict(v=60.0, alpha=s["alpha"], beta=s["beta"], rho=1.1, cg=[0.4, 0.0 if s["sym"] else 0.15, 0.1])
+    fl = dict(v=60.0, alpha=s["alpha"], beta=s["beta"], rho=1.1, cg=[0.4, 0.0 if s["sym"] is True else 0.15, 0.1])
     p0 = builders.build_aero(surfs, fl)
     p0.run_model()
     p1 = builders.build_aero([surfs[k] for k in s["perm"]], fl)
@@ -109,8 +113,8 @@ def part_perm(s):
         cmp(q, p1["ap." + q], p0["ap." + q], max(abs(p0["ap." + q][0]), 1e-3))
     M0, M1 = p0["ap.total_perf.moment.M"], p1["ap.total_perf.moment.M"]
     cmp("M", M1, M0, max(np.abs(M0).max(), Fsc))
-    mac0 = mac_of(p0, surfs[0]["name"], s["sym"])
-    mac1 = mac_of(p1, surfs[s["perm"][0]]["name"], s["sym"])
+    mac0 = mac_of(p0, surfs[0]["name"], surfs[0]["symmetry"])
+    mac1 = mac_of(p1, surfs[s["perm"][0]]["name"], surfs[s["perm"][0]]["symmetry"])
     cmp("CM*MAC1", p1["ap.CM"] * mac1, p0["ap.CM"] * mac0, max(np.abs(p0["ap.CM"] * mac0).max(), 1e-3))
     if s["perm"][0] == 0:
         cmp("CM", p1["ap.CM"], p0["ap.CM"], max(np.abs(p0["ap.CM"]).max(), 1e-3))
